@@ -45,9 +45,9 @@ struct CoutCapture {
 // ================================================================================================
 // C17: shot programs
 // ================================================================================================
-enum SegKind { S_LOCAL = 0, S_LOOP, S_HELPER, S_ARRAY, S_OBJ1, S_OBJ2, S_BLOCK, S_ECHO, S_UNTRACKED, S_CYCLE_OWNER, S_COND, S_COUNT };
+enum SegKind { S_LOCAL = 0, S_LOOP, S_HELPER, S_ARRAY, S_OBJ1, S_OBJ2, S_BLOCK, S_ECHO, S_UNTRACKED, S_CYCLE_OWNER, S_COND, S_MULTI, S_COUNT };
 const char* segName(int k) {
-    static const char* n[] = {"tracked_local", "tracked_in_loop", "tracked_in_helper", "tracked_array", "object_tracked_field", "object_tracked_array_field", "tracked_in_block", "echo", "untracked_qubit", "tracked_owner_held_by_garbage_cycle", "tracked_in_measurement_dependent_scope"};
+    static const char* n[] = {"tracked_local", "tracked_in_loop", "tracked_in_helper", "tracked_array", "object_tracked_field", "object_tracked_array_field", "tracked_in_block", "echo", "untracked_qubit", "tracked_owner_held_by_garbage_cycle", "tracked_in_measurement_dependent_scope", "tracked_multi_declaration"};
     return k >= 0 && k < S_COUNT ? n[k] : "?";
 }
 struct Seg {
@@ -154,6 +154,10 @@ std::string renderShot(const ShotPlan& p) {
                 }
                 break;
             case S_ECHO: body += "    echo(\"e" + id + "\");\n"; break;
+            case S_MULTI:
+                // one annotation, two declared qubits: both are tracked
+                body += "    @tracked qubit ma" + id + ", mb" + id + "; " + localBody("ma" + id) + localBody("mb" + id) + "\n";
+                break;
             case S_COND:
                 // the tracked declaration is reached only when a measured bit is 1: a shot may record nothing at all
                 body += "    qubit g" + id + "; h(g" + id + "); bit c" + id + " = measure g" + id + "; if (c" + id + ") { @tracked qubit k" + id + "; " + localBody("k" + id) + "}\n";
@@ -197,7 +201,7 @@ ShotPlan genShot(sim::Rng& g) {
         }
         if (s.kind == S_ARRAY || s.kind == S_OBJ2) { if (g.chance(0.3)) s.prep = 4; }
         if (s.kind == S_OBJ2 && s.meas == 3) s.meas = 1;
-        int need = (s.kind == S_ARRAY ? 2 : (s.kind == S_OBJ1 || s.kind == S_OBJ2) ? 2 : s.kind == S_CYCLE_OWNER ? 3 : s.kind == S_ECHO ? 0 : 1) * ((s.kind == S_LOOP || s.kind == S_HELPER) ? s.reps : 1);
+        int need = (s.kind == S_ARRAY || s.kind == S_MULTI ? 2 : (s.kind == S_OBJ1 || s.kind == S_OBJ2) ? 2 : s.kind == S_CYCLE_OWNER ? 3 : s.kind == S_ECHO ? 0 : 1) * ((s.kind == S_LOOP || s.kind == S_HELPER) ? s.reps : 1);
         if (qubits + need > 9) continue;
         qubits += need;
         p.segs.push_back(s);
@@ -295,6 +299,12 @@ void modelShot(const ShotPlan& p, int shot, Table& tab, std::vector<std::string>
                 }
                 break;
             case S_ECHO: echoes.push_back("e" + id); break;
+            case S_MULTI: {
+                std::string a = local(g), b = local(g);
+                tab["qubit ma" + id][a]++;
+                tab["qubit mb" + id][b]++;
+                break;
+            }
             case S_COND: {
                 int c = measureOne(2, -1);
                 if (c) tab["qubit k" + id][local(g)]++;
